@@ -5,11 +5,11 @@
 # baseline (3164 passed, no stable test failing) every seed of the batch is marked
 # "pass (batched with ...)"; otherwise the batch must be split and re-run.
 set -u
-WT=/tmp/seedverify
-export CARGO_TARGET_DIR=/tmp/seedverify-target
+WT=${SUITE_WT:-/tmp/seedverify}
+export CARGO_TARGET_DIR=${SUITE_TARGET:-/tmp/seedverify-target}
 export CARGO_NET_OFFLINE=true
 mkdir -p /tmp/seedverify-logs
-exec 8>/tmp/seedverify.lock
+exec 8>${SUITE_LOCK:-/tmp/seedverify.lock}
 flock -w 36000 8 || exit 2
 if [ ! -d "$WT" ]; then git -C /repo worktree add --detach "$WT" HEAD >/dev/null 2>&1 || exit 2; fi
 git -C "$WT" checkout -q --detach "$(git -C /repo rev-parse HEAD)" && git -C "$WT" reset -q --hard && git -C "$WT" clean -qfd
